@@ -65,6 +65,15 @@ pub fn check(cx: &Cx, rep: &mut Report) {
             }
         }
     }
+    // a liveness query never panics (it would if it polled a spent shared future)
+    for o in ix.ops.iter().filter(|o| matches!(o.op, OpK::QueryStopped | OpK::QueryRunning) && o.e.is_none()) {
+        let ctask = ix.ev[o.b as usize].task;
+        if matches!(ix.task_end.get(&ctask), Some((_, _, "panicked"))) {
+            rep.premise("C14.R2.stopped_after_termination");
+            let self_awaited = ix.ops.iter().any(|p| p.c == o.c && p.slot == o.slot && p.op == OpK::AwaitRef && p.e.map(|x| x < o.b).unwrap_or(false));
+            rep.fail(P, "R2", format!("query_panicked;hk={:?};self_awaited={self_awaited}", o.hk), format!("{:?} c{}#{} on a {:?} of tag {} panicked instead of answering", o.op, o.c, o.i, o.hk, o.tag), vec![o.b]);
+        }
+    }
     // R3: dependants react to a termination nobody awaited (service tags: several instances per tag)
     for k in [1u32, 2] {
         let tag = 9000 + k;
